@@ -177,6 +177,10 @@ def check(ctx, rep):
         rep.missing('R12.c', 'ResolveRegistry::register')
     else:
         c09.check_register(rep, 'R12.c', core, reg_fn)
+    # R12.g: a rejected response drops its resolver unresolved, and the task awaiting it is evicted: that must cancel that task alone. The
+    # aborted flags are written only by the abort handles (the root task shares its command's flag: flagging an evicted task would cancel
+    # the sibling requests of the command as well) (shared with C06 R06.i)
+    c06.check_flag_ownership(rep, core, rid='R12.g')
     # R12.d
     used = set()
     for f in fns:
